@@ -27,6 +27,7 @@ var c17fRules = [][]string{
 	{"^lib/sub/c%.lua$"}, // (a pattern that matches nothing: % is no escape in Go regular expressions)
 	{"sub"},
 	{"^gen/"}, // a regular expression anchored at the start of the path relative to the workspace
+	{"gen/d"}, // a folder rule (no .lua suffix) whose text continues into a file name: gen/d.lua is not in a folder gen/d
 }
 
 var c17fFiles = []string{"a.lua", "lib/b.lua", "lib/sub/c.lua", "gen/d.lua"}
@@ -43,6 +44,7 @@ var c17fMatch = [][]bool{
 	{false, false, false, false},
 	{false, false, true, false},
 	{false, false, false, true},
+	{false, false, false, false},
 }
 
 // the rules of IgnoreFileOrDirError are matched against the complete file name, so a pattern anchored at the
@@ -50,6 +52,9 @@ var c17fMatch = [][]bool{
 func c17fMatchErr(rule int, file int) bool {
 	if rule == 8 {
 		return false
+	}
+	if rule == 9 {
+		return file == 3 // (matched against the complete file name: gen/d.lua contains gen/d)
 	}
 	return c17fMatch[rule][file]
 }
@@ -75,7 +80,10 @@ func VerifRun_C17f() {
 	l.server = jrpc2.NewServer(handler.Map{}, &jrpc2.ServerOptions{AllowPush: false, Concurrency: 1})
 	nr := len(c17fRules) - 1
 	r0 := verifConcretize(verifRange("initIgnore", 0, nr))
-	e0 := verifConcretize(verifRange("initIgnoreErr", 0, nr))
+	e0 := (r0*3 + 1) % (nr + 1) // quick tier: the initial error list follows the initial ignore list (every rule occurs once)
+	if verifParamOr("FULL", 1) == 1 {
+		e0 = verifConcretize(verifRange("initIgnoreErr", 0, nr))
+	}
 	opts := getDefaultIntialOptions()
 	opts.AllEnable, opts.CheckLocalNoUse = true, true
 	opts.IgnoreFileOrDir = c17fRules[r0]
